@@ -328,6 +328,9 @@ CLAIMS["C16"]["text"] += " Inputs also include models built through the API with
 CLAIMS["C17"]["text"] += " Under vertex deletion (also of a middle vertex) every surviving triangle keeps its label."
 CLAIMS["C19"]["text"] += " The texturing-property slot kind is exercised in the Oblivion and in the Fallout 3 family."
 
+CLAIMS["C06"]["text"] += (" The seeded edit sequences on the sample files also contain the NifFile-level composites (AddNode, SetParentNode, "
+                          "DeleteNode, DeleteShape, DeleteShader, DeleteSkinning, AssignExtraData), judged by NifGraph!ModelOpViol.")
+
 
 def main():
     props = [json.loads(l) for l in open(os.path.join(ROOT, "properties.jsonl"))]
